@@ -19,6 +19,12 @@ pub enum TState {
     Exited,
 }
 
+pub enum Parked {
+    Resume,
+    Cancel,
+    Abort,
+}
+
 pub struct Inner {
     pub st: Vec<TState>,
     pub grant: Option<usize>,
@@ -28,6 +34,7 @@ pub struct Inner {
     pub done: Vec<usize>,
     pub cmd: Vec<Option<usize>>, // index of the operation to start
     pub woken: Vec<bool>,
+    pub cancel: Vec<bool>,
 }
 pub struct Shared {
     pub m: Mutex<Inner>,
@@ -37,7 +44,7 @@ impl Shared {
     pub fn new(n: usize) -> Arc<Self> {
         Arc::new(Shared {
             m: Mutex::new(Inner { st: vec![TState::Idle; n], grant: None, free_run: false, shutdown: false,
-                                  issued: vec![0; n], done: vec![0; n], cmd: vec![None; n], woken: vec![false; n] }),
+                                  issued: vec![0; n], done: vec![0; n], cmd: vec![None; n], woken: vec![false; n], cancel: vec![false; n] }),
             cv: Condvar::new(),
         })
     }
@@ -87,33 +94,51 @@ impl Shared {
         self.cv.notify_all();
     }
     /// worker: the future returned Pending; block until its waker fired, then behave like a yield
-    /// point (WAKE) -- the state goes Pending -> AtYield(WAKE) under one lock. false = aborted
-    pub fn park_pending(&self, t: usize) -> bool {
+    /// point (WAKE) -- the state goes Pending -> AtYield(WAKE) under one lock.  A cancelable
+    /// operation can also be told to drop its future, while pending or at the WAKE point.
+    pub fn park_pending(&self, t: usize, cancelable: bool) -> Parked {
         let mut g = self.m.lock().unwrap();
         g.st[t] = TState::Pending;
         self.cv.notify_all();
-        while !g.woken[t] && !g.shutdown {
+        while !g.woken[t] && !g.shutdown && !(cancelable && g.cancel[t]) {
             g = self.cv.wait(g).unwrap();
         }
+        if cancelable && g.cancel[t] {
+            g.cancel[t] = false;
+            g.st[t] = TState::Running;
+            self.cv.notify_all();
+            return Parked::Cancel;
+        }
         if !g.woken[t] {
-            return false;
+            return Parked::Abort;
         }
         g.woken[t] = false;
         if g.free_run {
             g.st[t] = TState::Running;
-            return true;
+            return Parked::Resume;
         }
         g.st[t] = TState::AtYield(WAKE);
         self.cv.notify_all();
-        while g.grant != Some(t) && !g.free_run {
+        while g.grant != Some(t) && !g.free_run && !(cancelable && g.cancel[t]) {
             g = self.cv.wait(g).unwrap();
         }
         if g.grant == Some(t) {
             g.grant = None;
         }
         g.st[t] = TState::Running;
+        let c = cancelable && g.cancel[t];
+        g.cancel[t] = false;
         self.cv.notify_all();
-        true
+        if c { Parked::Cancel } else { Parked::Resume }
+    }
+    /// controller: tell the (pending or woken) cancelable operation of thread t to drop its future
+    pub fn cancel(&self, t: usize) -> Result<TState, String> {
+        {
+            let mut g = self.m.lock().unwrap();
+            g.cancel[t] = true;
+            self.cv.notify_all();
+        }
+        self.wait_settled(t)
     }
     pub fn wake(&self, t: usize) {
         let mut g = self.m.lock().unwrap();
@@ -126,7 +151,7 @@ impl Shared {
         let t0 = Instant::now();
         let mut g = self.m.lock().unwrap();
         loop {
-            let settled = g.grant.is_none() && g.cmd[t].is_none() && match g.st[t] {
+            let settled = g.grant.is_none() && g.cmd[t].is_none() && !g.cancel[t] && match g.st[t] {
                 TState::Running => false,
                 TState::Idle => g.done[t] == g.issued[t],
                 _ => true,
